@@ -168,6 +168,11 @@ func layoutTokens(toks []gtok, r *rng, l layout) string {
 		}
 		b.WriteString(t.Text)
 	}
+	if l.comments && r != nil && r.chance(1, 3) {
+		// what may follow the last token: a comment that ends the file with or without a final line break, blanks ...
+		b.WriteString(pick(r, []string{" // end", " // end\n", " /* end */", " /* end */\n", "\n/* a\n b */", "/**/", " /* x **/", "\t", "\r\n", " \n \n", "// e\n// f"}))
+		return b.String()
+	}
 	if l.finalNL {
 		b.WriteString("\n")
 	}
@@ -249,7 +254,7 @@ func (g *specGen) rule(lhs string) *rrule {
 }
 
 var (
-	genNTNames   = []string{"start", "expr", "term", "stmt", "a", "b", "list", "x_1", "opt", "star", "plus", "group", "gen1_group", "gen_a_star", "item"}
+	genNTNames   = []string{"start", "expr", "term", "stmt", "a", "b", "list", "x_1", "opt", "star", "plus", "group", "gen1_group", "gen_a_star", "item", "g", "gra", "gramm", "gramma", "grammm", "grammmar_2", "grammars", "grammar_", "grammaa", "left", "none_"}
 	genStrBodies = []string{"a", "b", "+", "-", "*", "(", ")", "if", "then", ";", "=", "{{", `\"`, `x\\y`, "<=", "&&", "!"}
 	genTokNames  = []string{"ID", "NUM", "STR", "WS", "COMMENT", "OP_1", "KW"}
 	genRegexes   = []string{`[a-z]+`, `[0-9]+`, `a|b`, `"[^"]*"`, `\x2F\x2F.*`, `[A-Z][0-9A-Z_]*`, `-?[0-9]+(\.[0-9]+)?`, `x{2,3}`}
@@ -380,7 +385,7 @@ var (
 	wfTokStr    = []string{"while", "do", "end", "::", "=>", "%", "begin"}
 	wfTokRegex  = []string{`[a-z]+`, `[0-9]+`, `"[^"]*"`, `[A-Z][0-9A-Z_]*`, `0x[0-9A-F]+`, `#[a-z]*`, `\x2F\x2F[a-z ]*`}
 	wfTokPredef = []string{"$WS", "$DIGIT", "$LETTER", "$ID", "$NUMBER", "$STRING", "$COMMENT"}
-	wfNTPool    = []string{"expr", "term", "stmt", "a", "b", "list", "x_1", "item", "opt", "group", "factor", "decl", "args", "block", "tail", "gen", "genx", "op_group"}
+	wfNTPool    = []string{"expr", "term", "stmt", "a", "b", "list", "x_1", "item", "opt", "group", "factor", "decl", "args", "block", "tail", "gen", "genx", "op_group", "gramm", "grammm", "grammars", "grammmy", "gramma_r"}
 	wfTokNames  = []string{"ID", "NUM", "STR", "WS", "COMMENT", "OP_1", "KW", "HEX", "EOL"}
 )
 
